@@ -1,10 +1,13 @@
 (* Extraction of the C13 models for the correspondence check. ExtrOcamlBasic only. *)
 From V.lib Require Import Base.
-From V.c13 Require Import C13Spec C13Model.
+From V.c13 Require Import C13Spec C13Model C13ModelExt.
 Require Import ExtrOcamlBasic.
 Separate Extraction
   wstate wop rop rval rstate
   run_writer run_writer_plain wstep wout wn wv
   rinit rstep run_reader rerr rn rpos read_plain read read_signed_plain
   nr_bytes_read nr_bits_read nr_bits_read_in_current_byte
-  escape unescape forbidden.
+  escape unescape forbidden
+  xrop xrval xrstep read_flag_plain
+  fop fsw run_fsw fstep finit fbytes foff ferr
+  bop bw run_bw bstep binit bbytes berr brev.
